@@ -1,4 +1,228 @@
+(* C08 - legacy grids: pos, cell contents, empties and empty_mask never disagree.
+   ONLY statements closed by `exact`, with Print Assumptions beneath each, and one Example of
+   non-vacuity per theorem.  Model: Model/LegacyGrid.v (the code as repaired by fixes/C08-1..3);
+   `run c init ops` is the state after the history `ops` (the same `step` the correspondence
+   check evaluates through run_case), for ANY list of operations: calls outside the quantifier
+   are skipped by `step` itself, illegal random outcomes are rejected by `step` itself, so no
+   hypothesis on the history is needed.  wf c  :=  0 < width /\ 0 < height. *)
 From Coq Require Import ZArith List Bool.
 From Mesa Require Import Common.ListX Model.LegacyGrid Proofs.LegacyGridProofs.
 Import ListNotations.
 Open Scope Z_scope.
+
+(* --- the invariant holds after every history (all four classes: c_multi; torus on/off; any size) *)
+Theorem C08_agree : forall c ops, wf c -> Agree c (run c init ops).
+Proof. exact agree_history. Qed.
+Print Assumptions C08_agree.
+
+(* --- an agent's pos is the one cell whose content includes it; None exactly when in no cell;
+       no cell lists it twice; pos is always inside the grid *)
+Theorem C08_pos_is_the_one_cell : forall c ops a,
+  wf c -> let s := run c init ops in
+  (forall p, pos s a = Some p <-> In a (grid s p)) /\
+  (pos s a = None <-> forall q, ~ In a (grid s q)) /\
+  (forall p q, In a (grid s p) -> In a (grid s q) -> p = q) /\
+  (forall p, NoDup (grid s p)) /\
+  (forall p, pos s a = Some p -> out_of_bounds c p = false).
+Proof. exact pos_one_cell_history. Qed.
+Print Assumptions C08_pos_is_the_one_cell.
+
+(* --- a SingleGrid cell never holds two agents *)
+Theorem C08_single_capacity : forall c ops p,
+  wf c -> c_multi c = false -> (length (grid (run c init ops) p) <= 1)%nat.
+Proof. exact single_capacity_history. Qed.
+Print Assumptions C08_single_capacity.
+
+(* --- empties (before and after the lazy build), is_cell_empty, exists_empty_cells, empty_mask,
+       grid[x,y], iteration, coord_iter and agents are all the same function of the contents *)
+Theorem C08_views : forall c ops,
+  wf c -> let s := run c init ops in
+  view_empties c s = spec_empties c s /\
+  view_empties c (build_empties c s) = spec_empties c s /\
+  (forall p, In p (spec_empties c s) <-> out_of_bounds c p = false /\ grid s p = []) /\
+  view_mask c s = map (is_cell_empty s) (all_cells c) /\
+  view_exists c s = existsb (is_cell_empty s) (all_cells c) /\
+  (forall p, out_of_bounds c p = false -> mask s p = is_cell_empty s p) /\
+  (forall p, view_index c s p = option_map (grid s) (torus_adj c p)) /\
+  view_iter c s = map (grid s) (all_cells c) /\
+  map fst (view_coord_iter c s) = view_iter c s /\ map snd (view_coord_iter c s) = all_cells c /\
+  view_agents c s = concat (view_iter c s).
+Proof. exact views_history. Qed.
+Print Assumptions C08_views.
+
+(* --- grid.agents (and iteration) shows every placed agent exactly once and nobody else *)
+Theorem C08_agents_once : forall c ops,
+  wf c -> let s := run c init ops in
+  NoDup (view_agents c s) /\ forall a, In a (view_agents c s) <-> exists p, pos s a = Some p.
+Proof. exact agents_once_history. Qed.
+Print Assumptions C08_agents_once.
+
+(* --- targets outside a toroidal grid are wrapped (any integers), everybody else stays *)
+Theorem C08_torus_wrap : forall c s a pa p s' r,
+  wf c -> Agree c s -> c_torus c = true -> pos s a = Some pa ->
+  let target := (fst p mod c_w c, snd p mod c_h c) in
+  (c_multi c = false -> blocked s a target = false) ->
+  step c s (Move a p) = (s', r) ->
+  r = Ok [] /\ pos s' a = Some target /\ out_of_bounds c target = false /\
+  (forall b, b <> a -> pos s' b = pos s b).
+Proof. exact torus_wrap_step. Qed.
+Print Assumptions C08_torus_wrap.
+
+(* --- in-grid targets are taken as they are (torus or not) *)
+Theorem C08_move_in_grid : forall c s a pa p s' r,
+  wf c -> Agree c s -> pos s a = Some pa -> out_of_bounds c p = false ->
+  (c_multi c = false -> blocked s a p = false) ->
+  step c s (Move a p) = (s', r) ->
+  r = Ok [] /\ pos s' a = Some p /\ (forall b, b <> a -> pos s' b = pos s b).
+Proof. exact in_grid_move_step. Qed.
+Print Assumptions C08_move_in_grid.
+
+(* --- targets outside a bounded grid are rejected, with the state literally unchanged *)
+Theorem C08_bounded_reject : forall c s a p,
+  c_torus c = false -> out_of_bounds c p = true -> placed s a = true ->
+  step c s (Move a p) = (s, Err E_OOB) /\ step c s (Index p) = (s, Err E_OOB).
+Proof. exact bounded_reject_step. Qed.
+Print Assumptions C08_bounded_reject.
+
+(* --- SingleGrid: a move onto a cell held by another agent is rejected, state unchanged;
+       `blocked` means exactly "some other agent has this pos" *)
+Theorem C08_single_occupied_reject : forall c s a pa p p',
+  c_multi c = false -> pos s a = Some pa -> torus_adj c p = Some p' -> blocked s a p' = true ->
+  step c s (Move a p) = (s, Err E_CELL_NOT_EMPTY).
+Proof. exact single_occupied_reject_step. Qed.
+Print Assumptions C08_single_occupied_reject.
+
+Theorem C08_blocked_means_other_agent : forall c s a q,
+  Agree c s -> c_multi c = false ->
+  (blocked s a q = true <-> exists b, b <> a /\ pos s b = Some q).
+Proof. exact blocked_spec. Qed.
+Print Assumptions C08_blocked_means_other_agent.
+
+(* --- move_to_empty lands on a cell that was empty (for every legal outcome of either branch);
+       it is rejected only when no cell is empty, and then it always is *)
+Theorem C08_move_to_empty_lands_on_empty : forall c s a pa smp out s' r,
+  Agree c s -> pos s a = Some pa -> step c s (MoveToEmpty a smp out) = (s', r) ->
+  (forall l, r = Ok l -> out_of_bounds c out = false /\ grid s out = [] /\ pos s' a = Some out /\
+                         (forall b, b <> a -> pos s' b = pos s b)) /\
+  (forall k, r = Err k -> k = E_NO_EMPTY /\ forall q, out_of_bounds c q = false -> grid s q <> []).
+Proof. exact move_to_empty_step. Qed.
+Print Assumptions C08_move_to_empty_lands_on_empty.
+
+Theorem C08_move_to_empty_full_grid : forall c s a smp out,
+  Agree c s -> placed s a = true -> (forall q, out_of_bounds c q = false -> grid s q <> []) ->
+  step c s (MoveToEmpty a smp out) = (build_empties c s, Err E_NO_EMPTY).
+Proof. exact move_to_empty_full_step. Qed.
+Print Assumptions C08_move_to_empty_full_grid.
+
+(* --- move_agent_to_one_of lands on (the wrap of) one of the offered cells; with "closest" no
+       offered cell is nearer (squared toroidal / Euclidean distance between grid cells) *)
+Theorem C08_move_to_one_of_member_and_closest : forall c s a pa cells sl he out s' l,
+  wf c -> Agree c s -> pos s a = Some pa -> cells <> [] ->
+  step c s (MoveToOneOf a cells sl he out) = (s', Ok l) ->
+  exists offered landing,
+    In offered cells /\ torus_adj c offered = Some landing /\ pos s' a = Some landing /\
+    (forall b, b <> a -> pos s' b = pos s b) /\
+    (sl = SelClosest ->
+       forall q q', In q cells -> torus_adj c q = Some q' -> dist2 c landing pa <= dist2 c q' pa).
+Proof. exact move_one_of_step. Qed.
+Print Assumptions C08_move_to_one_of_member_and_closest.
+
+(* --- the per-axis distance used by "closest" on a torus is the true toroidal one: the least
+       |d + k*n| over all wraps k, and it is attained *)
+Theorem C08_toroidal_distance_is_least : forall n d,
+  0 < n -> (forall k, axis_dist true n d <= Z.abs (d + k * n)) /\
+           (exists k, axis_dist true n d = Z.abs (d + k * n)).
+Proof. intros n d Hn. split; [intros k; exact (axis_dist_least n d k Hn)|exact (axis_dist_attained n d Hn)]. Qed.
+Print Assumptions C08_toroidal_distance_is_least.
+
+(* --- swap_pos exchanges the two positions and touches nobody else, or rejects unplaced agents *)
+Theorem C08_swap : forall c s a b s' r,
+  Agree c s -> step c s (Swap a b) = (s', r) ->
+  (r = Ok [] /\ pos s' a = pos s b /\ pos s' b = pos s a /\ pos s a <> None /\ pos s b <> None /\
+     (forall x, x <> a -> x <> b -> pos s' x = pos s x)) \/
+  (s' = s /\ r = Err E_NOT_ON_GRID /\ (pos s a = None \/ pos s b = None)).
+Proof. exact swap_step. Qed.
+Print Assumptions C08_swap.
+
+(* --- (C18, legacy-grid sites) a call that raises leaves the whole observation unchanged *)
+Theorem C08_rejected_call_changes_nothing : forall c n s o s' e,
+  wf c -> Agree c s -> step c s o = (s', Err e) -> obs_state c n s' = obs_state c n s.
+Proof. exact C18_legacygrid_atomic. Qed.
+Print Assumptions C08_rejected_call_changes_nothing.
+
+(* ------------------------------------------------------------------ non-vacuity *)
+Definition ex_cfg_s : cfg := {| c_w := 3; c_h := 2; c_torus := true; c_multi := false |}.
+Definition ex_cfg_m : cfg := {| c_w := 3; c_h := 2; c_torus := false; c_multi := true |}.
+Definition ex_hist : list op :=
+  [Place 1 (0, 0); Place 2 (1, 1); ReadMask; Move 1 (4, 3); Move 1 (-1, 7); ReadEmpties; Swap 1 2;
+   MoveToEmpty 2 false (0, 0); Remove 1; Place 1 (1, 1)].
+
+(* C08_agree, C08_pos_is_the_one_cell, C08_single_capacity, C08_views, C08_agents_once:
+   a history whose final state has agents on the grid, empties built, a rejected move inside *)
+Example C08_example_history :
+  wf ex_cfg_s /\ wf ex_cfg_m /\
+  let s := run ex_cfg_s init ex_hist in
+  pos s 1 = Some (1, 1) /\ pos s 2 = Some (0, 0) /\ built s = true /\
+  view_agents ex_cfg_s s = [2; 1] /\ map enc (view_empties ex_cfg_s s) = [1; 65536; 131072; 131073] /\
+  map snd (map (step ex_cfg_s (run ex_cfg_s init [Place 1 (0, 0); Place 2 (1, 1)])) [Move 1 (4, 3)])
+    = [Err E_CELL_NOT_EMPTY] /\
+  let m := run ex_cfg_m init ex_hist in
+  pos m 1 = Some (1, 1) /\ pos m 2 = Some (0, 0) /\ view_mask ex_cfg_m m = [false; true; true; false; true; true].
+Proof. vm_compute. repeat split; congruence. Qed.
+
+(* C08_torus_wrap / C08_move_in_grid: hypotheses hold in a reachable state, target far outside *)
+Example C08_example_torus_wrap :
+  let s := run ex_cfg_s init [Place 1 (0, 0); Place 2 (1, 1)] in
+  c_torus ex_cfg_s = true /\ pos s 1 = Some (0, 0) /\ blocked s 1 (((-7) mod 3), (9 mod 2)) = false /\
+  step ex_cfg_s s (Move 1 (-7, 9)) = step ex_cfg_s s (Move 1 (2, 1)) /\
+  pos (fst (step ex_cfg_s s (Move 1 (-7, 9)))) 1 = Some (2, 1).
+Proof. vm_compute. repeat split; congruence. Qed.
+
+(* C08_bounded_reject / C08_single_occupied_reject / C08_blocked_means_other_agent *)
+Example C08_example_rejects :
+  let s := run ex_cfg_m init [Place 1 (0, 0)] in
+  c_torus ex_cfg_m = false /\ out_of_bounds ex_cfg_m (3, 0) = true /\ placed s 1 = true /\
+  let t := run ex_cfg_s init [Place 1 (0, 0); Place 2 (1, 1)] in
+  torus_adj ex_cfg_s (4, 3) = Some (1, 1) /\ blocked t 1 (1, 1) = true /\ blocked t 2 (1, 1) = false.
+Proof. vm_compute. repeat split; congruence. Qed.
+
+(* C08_move_to_empty_*: an Ok outcome, and a full 1x2 SingleGrid *)
+Example C08_example_move_to_empty :
+  let s := run ex_cfg_s init [Place 1 (0, 0); Place 2 (1, 1)] in
+  snd (step ex_cfg_s s (MoveToEmpty 1 false (2, 0))) = Ok [] /\
+  snd (step ex_cfg_s s (MoveToEmpty 1 true (2, 0))) = Ok [] /\
+  snd (step ex_cfg_s s (MoveToEmpty 1 false (1, 1))) = Illegal /\
+  let c := {| c_w := 1; c_h := 2; c_torus := false; c_multi := false |} in
+  let f := run c init [Place 1 (0, 0); Place 2 (0, 1)] in
+  placed f 1 = true /\ snd (step c f (MoveToEmpty 1 false (0, 0))) = Err E_NO_EMPTY.
+Proof. vm_compute. repeat split; congruence. Qed.
+
+(* C08_move_to_one_of_member_and_closest / C08_toroidal_distance_is_least: offers more than one
+   grid size away; (9,0) wraps to (4,0), one step from (0,0) on a 5x4 torus, and beats (2,0) *)
+Example C08_example_closest :
+  let c := {| c_w := 5; c_h := 4; c_torus := true; c_multi := true |} in
+  let s := run c init [Place 1 (0, 0)] in
+  snd (step c s (MoveToOneOf 1 [(9, 0); (2, 0)] SelClosest HNone (9, 0))) = Ok [] /\
+  pos (fst (step c s (MoveToOneOf 1 [(9, 0); (2, 0)] SelClosest HNone (9, 0)))) 1 = Some (4, 0) /\
+  snd (step c s (MoveToOneOf 1 [(9, 0); (2, 0)] SelClosest HNone (2, 0))) = Illegal /\
+  axis_dist true 5 9 = 1 /\ axis_dist true 5 (-11) = 1.
+Proof. vm_compute. repeat split; congruence. Qed.
+
+(* C08_swap: both outcomes *)
+Example C08_example_swap :
+  let s := run ex_cfg_s init [Place 1 (0, 0); Place 2 (1, 1)] in
+  pos (fst (step ex_cfg_s s (Swap 1 2))) 1 = Some (1, 1) /\
+  pos (fst (step ex_cfg_s s (Swap 1 2))) 2 = Some (0, 0) /\
+  snd (step ex_cfg_s s (Swap 1 3)) = Err E_NOT_ON_GRID.
+Proof. vm_compute. repeat split; congruence. Qed.
+
+(* C08_rejected_call_changes_nothing: every raising site is reachable *)
+Example C08_example_rejections_reachable :
+  let s := run ex_cfg_s init [Place 1 (0, 0); Place 2 (1, 1)] in
+  map (fun o => snd (step ex_cfg_s s o))
+      [Place 3 (1, 1); Move 1 (1, 1); Swap 1 3; MoveToOneOf 1 [(1, 1)] SelBad HNone (0, 0);
+       MoveToOneOf 1 [] SelRandom HError (0, 0); MoveToOneOf 1 [(4, 3)] SelRandom HNone (4, 3)]
+  = [Err E_CELL_NOT_EMPTY; Err E_CELL_NOT_EMPTY; Err E_NOT_ON_GRID; Err E_BAD_SELECTION;
+     Err E_NO_POSITIONS; Err E_CELL_NOT_EMPTY] /\
+  snd (step ex_cfg_m (run ex_cfg_m init [Place 1 (0, 0)]) (Move 1 (3, 0))) = Err E_OOB.
+Proof. vm_compute. repeat split; congruence. Qed.
